@@ -109,7 +109,7 @@ def pools(name):
             specs += {"core": CL.POOL_C_CORE, "more": CL.POOL_C_MORE, "thorough": CL.POOL_C_THOROUGH}[part]
         res = (specs, [CL.build_impl(c) for c in specs])
     else:
-        enc = {"V": CL.POOL_V, "Vs": CL.POOL_V_SMALL}[name]
+        enc = {"V": CL.POOL_V, "Vs": CL.POOL_V_SMALL, "Vt": CL.POOL_V_TINY}[name]
         res = (enc, [CL.dec_val(e) for e in enc])
     _POOLS[name] = res
     return res
@@ -127,6 +127,10 @@ def grid_env(specs, values):
 
 def grid_worker(task):
     exe, cname, vname, chains, findings = task
+    return grid_worker_pools(exe, cname, vname, chains, findings)
+
+
+def grid_worker_pools(exe, cname, vname, chains, findings):
     specs, objs = pools(cname)
     venc, vals = pools(vname)
     drv = vlib.Driver(exe)
@@ -253,6 +257,13 @@ T_SPEC = {
     "REGEX[(]": "ERR",
     "RANGE[5,5]": ["RANGE", CL.I(5), CL.I(5)], "RANGE[ 1 , 5 ]": ["RANGE", CL.I(1), CL.I(5)], "ENUM[A]": ["ENUM", [CL.S("A")]],
     "MAX_LENGTH[0]": ["MAX_LENGTH", 0], "ENUM[ A , B ]": ["ENUM", [CL.S("A"), CL.S("B")]],
+    # _parse_atom docstring: "Numbers: 42, 3.14, 1e10, -5 -> int/float", quoted strings, booleans, null
+    "CONST[1e5]": ["CONST", CL.F(1e5)], "CONST[1E5]": ["CONST", CL.F(1e5)], "CONST[.5]": ["CONST", CL.F(0.5)], "CONST[5.]": ["CONST", CL.F(5.0)],
+    "CONST[+5]": ["CONST", CL.I(5)], "CONST[-0]": ["CONST", CL.I(0)], "CONST[ null ]": ["CONST", None], "CONST[ x ]": ["CONST", CL.S("x")],
+    "CONST['q']": ["CONST", CL.S("q")], "ENUM[1e0]": ["ENUM", [CL.F(1.0)]], "ENUM[null,false]": ["ENUM", [None, False]],
+    "RANGE[1.0,5]": ["RANGE", CL.F(1.0), CL.I(5)], "RANGE[-1e400,1e400]": ["RANGE", CL.F(-math.inf), CL.F(math.inf)],
+    "MIN_LENGTH[+3]": ["MIN_LENGTH", 3], "MAX_LENGTH[ 3 ]": ["MAX_LENGTH", 3], "TYPE[]": ["TYPE", ""], "RANGE[1,5,9]": "ERR",
+    "MAX_LENGTH[3.0]": "ERR", "MAX_LENGTH[null]": "ERR", "LANG[ ]": "ERR", "RANGE[null,5]": "ERR", 'RANGE["1",5]': "ERR",
 }
 
 
@@ -867,52 +878,58 @@ def replay_known(ctx, findings):
 # replay of one recorded case
 # ================================================================================================
 
+def run_case(ctx, exe, findings, case, label):
+    """Re-execute one recorded case (corpus vector or replay) on the current tree and on the model.
+    Returns False when the case has no re-executable kind."""
+    kind = case.get("kind")
+    if kind == "chain":
+        specs = case["chain"]
+        _POOLS["Cr"] = (specs, [CL.build_impl(c) for c in specs])
+        _POOLS["Vr"] = ([case["value"]], [CL.dec_val(case["value"])])
+        o = grid_worker_pools(exe, "Cr", "Vr", [tuple(range(len(specs)))], findings)
+    elif kind == "parse":
+        vname = "Vs"
+        if "value" in case:
+            _POOLS["Vr"] = ([case["value"]], [CL.dec_val(case["value"])])
+            vname = "Vr"
+        o = parse_worker((exe, vname, [(case["text"], None)], findings))
+    elif kind == "doc":
+        o = doc_worker((exe, [(case["chains"], case["policy"], case["states"], case["extras"])], findings))
+    elif kind == "tool":
+        o = tool_worker(([(tuple(case["chain_idx"]), case["policy"], case["states"], case["extras"])], findings, 9998))
+    else:
+        return False
+    ctx.case(case)
+    ctx.count(f"{label}:cases")
+    if label == "replay":
+        print("replay:", json.dumps({k: o[k] for k in ("disagree", "fail", "known", "dist")}, ensure_ascii=False, default=str)[:3000])
+    ctx.failures += o["fail"]
+    ctx.corr_disagreements += o["disagree"]
+    for fid, n in o["known"].items():
+        ctx.known_hits[fid] = ctx.known_hits.get(fid, 0) + n
+    return True
+
+
 def run_replay(ctx, exe, findings):
     data = json.loads(open(ctx.replay).read())
     case = data.get("case") or {}
-    kind = case.get("kind")
-    ctx.notes.append(f"replay of {ctx.replay} kind={kind}")
-    if kind == "chain":
-        specs = case["chain"]
-        objs = [CL.build_impl(c) for c in specs]
-        v = CL.dec_val(case["value"])
-        codes, exc = impl_chain_eval(objs, v)
-        pats = [c[1] for c in specs if c[0] == "REGEX"]
-        rows, ok = CL.re_tables(pats, [v])
-        rep = vlib.Driver(exe).batch([{"op": "chain_eval", "chain": [CL.obj_to_driver(o) for o in objs], "value": case["value"],
-                                        "env": {"re": rows, "reok": ok, "fr": []}}])[0]
-        want = CL.oracle_chain(specs, v)
-        print(f"replay: impl={cell_of(codes, exc)} model={rep} oracle_valid={want}")
-        ctx.case(case)
-        if exc is not None or (want is not None and (codes == []) != want) or ("spec" in rep and exc is None and (codes == []) != rep["spec"]):
-            if not classify(findings, specs, v):
-                ctx.failures.append({"case": case, "why": f"replayed: impl={cell_of(codes, exc)} oracle_valid={want} lean_spec={rep.get('spec')}", "why_class": "replay"})
-    elif kind == "parse":
-        texts = [(case["text"], None)]
-        o = parse_worker((exe, "Vs", texts, findings)) if "value" not in case else None
-        if o is None:
-            _POOLS["Vr"] = ([case["value"]], [CL.dec_val(case["value"])])
-            o = parse_worker((exe, "Vr", texts, findings))
-        print("replay:", json.dumps({k: o[k] for k in ("disagree", "fail", "known")}, ensure_ascii=False, default=str)[:2000])
-        ctx.case(case)
-        ctx.failures += o["fail"]
-        ctx.corr_disagreements += o["disagree"]
-    elif kind == "doc":
-        o = doc_worker((exe, [(case["chains"], case["policy"], case["states"], case["extras"])], findings))
-        print("replay:", json.dumps({k: o[k] for k in ("disagree", "fail", "known")}, ensure_ascii=False, default=str)[:2000])
-        ctx.case(case)
-        ctx.failures += o["fail"]
-        ctx.corr_disagreements += o["disagree"]
-    elif kind == "tool":
-        o = tool_worker(([(tuple(case["chain_idx"]), case["policy"], case["states"], case["extras"])], findings, 9998))
-        print("replay:", json.dumps({k: o[k] for k in ("disagree", "fail", "known")}, ensure_ascii=False, default=str)[:2000])
-        ctx.case(case)
-        ctx.failures += o["fail"]
-        ctx.corr_disagreements += o["disagree"]
-    else:
-        ctx.notes.append("replay file has no re-executable case (tie-broken replay): running the full check instead")
-        return False
-    return True
+    ctx.notes.append(f"replay of {ctx.replay} kind={case.get('kind')}")
+    if run_case(ctx, exe, findings, case, "replay"):
+        return True
+    ctx.notes.append("replay file has no re-executable case (tie-broken replay): running the full check instead")
+    return False
+
+
+def run_corpus(ctx, exe, findings):
+    d = vlib.VERIF / "corpus" / ctx.prop
+    for f in sorted(d.glob("*.json")) if d.exists() else []:
+        try:
+            case = json.loads(f.read_text()).get("case") or {}
+        except Exception as e:
+            ctx.notes.append(f"corpus file {f.name} unreadable: {e}")
+            continue
+        if not run_case(ctx, exe, findings, case, "corpus"):
+            ctx.notes.append(f"corpus file {f.name}: no re-executable case")
 
 
 # ================================================================================================
@@ -1010,8 +1027,8 @@ def run(ctx: vlib.Ctx):
                 "(counted, not hashed); distinct = number of distinct (program, value) pairs explored.")
     ctx.translate(PROJECT)
     proj = ctx.lean(PROJECT, PROPS)
-    ctx.n_facts = sum(1 for (_l, k, n) in vlib.declarations(proj.module_path(PROPS[0])) if k == "theorem" and n.startswith("gen_"))
-    ctx.n_facts = 0   # gen_* facts are theorems of Props/C08 and already counted there
+    ctx.n_facts = 0   # the gen_* table facts are theorems of Props/C08 and are counted there
+    ctx.extra["gen_table_facts"] = sorted(n for (_l, k, n) in vlib.declarations(proj.module_path(PROPS[0])) if k == "theorem" and n.startswith("gen_"))
     changed = vlib.fingerprints_changed(ctx.prop, ANCHORS)
     if changed:
         ctx.widen = max(ctx.widen, 8)
@@ -1039,8 +1056,9 @@ def run(ctx: vlib.Ctx):
     rng = random.Random(ctx.seed * 104729 + 17)
     ctx.extra["pool_sizes"] = {"constraints_core": len(CL.POOL_C_CORE), "constraints_more": len(CL.POOL_C_MORE), "constraints_thorough": len(CL.POOL_C_THOROUGH),
                                "values": len(CL.POOL_V), "values_small": len(CL.POOL_V_SMALL), "texts": len(CL.POOL_T_CORE) + len(CL.POOL_T_MORE)}
-    # -- known findings -------------------------------------------------------------------------
+    # -- known findings, corpus (always first) ------------------------------------------------------
     replay_known(ctx, findings)
+    run_corpus(ctx, exe, findings)
     # -- A. primitives --------------------------------------------------------------------------
     stage_primitives(ctx, drv)
     explore(ctx, exe, findings, rng, base=True, extra=ctx.widen > 1)
@@ -1067,8 +1085,8 @@ def explore(ctx, exe, findings, rng, base, extra):
         if extra:
             tasks += list(chain_tasks(exe, "C:core+more+thorough", "Vs", [2], findings, 200))
             tasks += list(chain_tasks(exe, "C:core", "V", [3], findings, 300))
-            tasks += list(chain_tasks(exe, "C:core+more", "Vs", [3], findings, 1500))
-            ctx.extra["grid_scope"] = ctx.extra.get("grid_scope", "") + "; widened: L=2 over +thorough x Vs, L=3 over core x V and core+more x Vs"
+            tasks += list(chain_tasks(exe, "C:core+more", "Vt", [3], findings, 3000))
+            ctx.extra["grid_scope"] = ctx.extra.get("grid_scope", "") + "; widened: L=2 over +thorough x Vs, L=3 over core x V and core+more x Vt"
     outs = vlib.pmap(grid_worker, tasks, chunksize=1)
     merge(ctx, outs, "grid")
     # -- C. parse ---------------------------------------------------------------------------------
